@@ -5,19 +5,29 @@ from .. import lib, atomtable as at
 
 PID = "C15"
 TIERS = {
-    "quick":    dict(mc="MC_AtomTable_quick.cfg", tables=40, corpus=(4, 4)),
-    "thorough": dict(mc="MC_AtomTable_thorough.cfg", tables=9000, corpus=(9, 8)),
+    "quick":    dict(mc="MC_ReadersAgree_quick.cfg", tables=300, corpus=(4, 4)),
+    "thorough": dict(mc="MC_ReadersAgree_thorough.cfg", tables=5000, corpus=(9, 8)),
 }
-ACTIONS = ("SeeModel", "SeeAtom", "Eof", "DedupeLoop", "ClashFilterStep", "SelectModelStep", "GroupStep")
+ACTIONS = ("WriteLine", "Close", "V1Read", "V1Connect", "V2GroupBy", "V2SortChain", "V2SegmentStep", "V2Flush")
+# seeded design variants (not defects of the code): they show that ReadersAgree is not vacuous
+NEG = [("MC_ReadersAgree_neg_sort.cfg", "ReadersAgree",
+        "seeded variant: the table-level reader's chain sort ignores the insertion code"),
+       ("MC_ReadersAgree_neg_bond.cfg", "ReadersAgree",
+        "seeded variant: the table-level reader's O3'-P threshold drifts to 2.415 A")]
 
 
-def validate(rep, cases, sc, what):
-    res = lib.trace_validate("Trace_AtomTable", "Trace_AtomTable_C15.cfg", cases, sc)
-    skipped = [v[0] for v in res["verdicts"] if v[1] == "skip"]
-    res["verdicts"] = [v for v in res["verdicts"] if v[1] != "skip"]
-    rep.add_trace(res, {c["id"]: c for c in cases}, what)
-    extra = res.get("extra", [0, 0])
-    return skipped, (extra[1] if len(extra) > 1 else 0)
+def validate(rep, cases, sc, what, batch=3000):
+    """Trace validation in batches; returns the skipped ids and the number of |chi| comparisons decided."""
+    skipped, chi = [], 0
+    for k in range(0, len(cases), batch):
+        part = cases[k:k + batch]
+        res = lib.trace_validate("Trace_AtomTable", "Trace_AtomTable_C15.cfg", part, sc)
+        skipped += [v[0] for v in res["verdicts"] if v[1] == "skip"]
+        res["verdicts"] = [v for v in res["verdicts"] if v[1] != "skip"]
+        rep.add_trace(res, {c["id"]: c for c in part}, what)
+        extra = res.get("extra", [0, 0])
+        chi += extra[1] if len(extra) > 1 else 0
+    return skipped, chi
 
 
 def run(tier):
@@ -26,20 +36,30 @@ def run(tier):
     with lib.Scratch(PID.lower()) as sc:
         at.set_tmpdir(sc.path("files"))
         from concurrent.futures import ThreadPoolExecutor
-        pool = ThreadPoolExecutor(max_workers=1)
-        job = pool.submit(lib.mc, "MC_AtomTable", t["mc"], sc, workers=max(2, lib.NCPU // 2))
+        pool = ThreadPoolExecutor(max_workers=3)
+        job = pool.submit(lib.mc, "MC_ReadersAgree", t["mc"], sc, workers=max(2, lib.NCPU // 4))
+        neg_jobs = [(why, pool.submit(lib.mc, "MC_ReadersAgree", cfg, sc, expect_violation=inv, workers=2))
+                    for cfg, inv, why in NEG]
         tables = at.c15_tables(t["tables"], lib.seed())
         corpus = at.c15_corpus_tables(at.CORPUS_C15[:t["corpus"][0]], t["corpus"][1], lib.seed())
+        emitted = at.check_emitters(tables + corpus)    # machinery guard (own tokenizers read the emitters back)
         cases = at.c15_cases(tables + corpus)
+        import time
+        t0 = time.time()
         rec = lib.pmap(at.record_c15, cases)
+        t1 = time.time()
         skipped, chi = validate(rep, rec, sc, "C15")
+        rep.cov["phase_wall_s"] = {"record_s": round(t1 - t0, 1), "validate_s": round(time.time() - t1, 1)}
         bad_skip = [i for i in skipped if not i.startswith("corpus-")]
         if bad_skip:
             raise lib.MachineryError(f"generated tables outside the spec's domain (generator defect): {bad_skip[:5]}")
         if chi < len(tables) // 2:
             raise lib.MachineryError(f"only {chi} |chi| comparisons were decided (vacuous SameChiMagnitude)")
-        rep.add_mc(job.result(), "the residue-level reader machine that both generations must refine (shared with C08); "
-                                 "clauses of AtomTable as invariants", min_actions=ACTIONS)
+        rep.add_mc(job.result(), "both reader generations, action by action, on every single-model single-conformer file over "
+                                 "a backbone palette (O3'/P at 1.6 A, 2.41 A, far); clauses SameResidues, SameAtomsAndCoords, "
+                                 "SameConnectivity, ReadersAgree as invariants", min_actions=ACTIONS)
+        for why, j in neg_jobs:
+            rep.add_mc(j.result(), why, negative_control=True)
         pool.shutdown()
         cov = rep.cov
         cov["exhaustive"] = False
@@ -56,6 +76,7 @@ def run(tier):
         cov["distinct_nontrivial"] = len({json.dumps(x["lines"], sort_keys=True) for x in tables if mixed(x)})
         cov["chi_magnitudes_compared"] = chi
         cov["cases_skipped_outside_domain"] = len(skipped)
+        cov["emitter_roundtrips_checked"] = emitted
         cov["link_classes"] = {k: sum(1 for x in tables if k in x["links"]) for k in at.LINKS}
         s = dict(rec[0])
         s["lines"] = s["lines"][:12]
